@@ -240,4 +240,117 @@ theorem MOV_W_ST_AA16 (op a : BitVec 16) (st s1 st' : Cpu) (c : BitVec 8) (i : S
   rw [e1, e2]
   congr 1
 
+/-! ### aa:24 -/
+
+theorem abs24_1_toNat (hi lo : BitVec 16) (h0 : hi &&& 0xff00#16 = 0x0000#16)
+    (hm : Spec.regionOf (((hi.setWidth 32 <<< 16) ||| lo.setWidth 32) + 1).toNat ≠ .none) :
+    (((hi.setWidth 32 <<< 16) ||| lo.setWidth 32) + 1).toNat =
+      (((BitVec.setWidth 24 (BitVec.extractLsb' 0 8 hi) <<< 16) ||| BitVec.setWidth 24 (BitVec.extractLsb' 0 16 lo)).toNat + 1) % 2 ^ 24 := by
+  have hlt := regionOf_lt _ hm
+  have e : (hi.setWidth 32 <<< 16) ||| lo.setWidth 32 =
+      ((BitVec.setWidth 24 (BitVec.extractLsb' 0 8 hi) <<< 16) ||| BitVec.setWidth 24 (BitVec.extractLsb' 0 16 lo)).setWidth 32 := by
+    bv_decide
+  rw [e] at hlt ⊢
+  have hy := ((BitVec.setWidth 24 (BitVec.extractLsb' 0 8 hi) <<< 16) ||| BitVec.setWidth 24 (BitVec.extractLsb' 0 16 lo)).isLt
+  have h1 : (1 : BitVec 32).toNat = 1 := by decide
+  simp only [BitVec.toNat_add, BitVec.toNat_setWidth, BitVec.toNat_ofNat, h1] at hlt ⊢
+  omega
+
+/-- MOV.W @aa:24,Rd -/
+theorem MOV_W_LD_AA24 (op hi lo : BitVec 16) (st s1 s2 st' : Cpu) (c : BitVec 8) (i : Spec.Instr)
+    (hp : Spec.Form.pat .MOV_W_LD_AA24 op hi lo 0 0 = true)
+    (hi' : Spec.instrOf .MOV_W_LD_AA24 op hi lo 0 0 = some i) (hf : fetch st = .ok hi s1) (hf2 : fetch s1 = .ok lo s2)
+    (h : movAbs24 .W op st = .ok c st') :
+    st' = { s2 with regs := (specRegCcr i s2).1, ccr := (specRegCcr i s2).2 } := by
+  rw [Spec.instrOf_MOV_W_LD_AA24] at hi'; simp only [Option.some.injEq] at hi'; subst hi'
+  rw [Spec.pat_MOV_W_LD_AA24] at hp; simp only [Bool.and_eq_true, beq_iff_eq] at hp
+  have htag : (op &&& 0xfff0 == 0x6b20) = true := by bv_decide
+  have hsz : (Sz.W == Sz.B) = false := by decide
+  simp only [movAbs24, bind_ok, C08D.fetch32_ok _ _ _ _ _ hf hf2, hsz, Bool.false_eq_true, if_false, htag, if_true, readMem,
+    readAbs24W, pure_ok] at h
+  split at h
+  case h_2 => simp at h
+  case h_3 => simp at h
+  rename_i v s3 hb
+  split at hb
+  case h_2 => simp at hb
+  case h_3 => simp at hb
+  rename_i w16 sw hw
+  split at hw
+  case h_2 => simp at hw
+  case h_3 => simp at hw
+  rename_i vhi sh hhi
+  obtain ⟨eh1, eh2, _⟩ := busRead_peek _ _ _ _ hhi
+  subst eh1
+  split at hw
+  case h_2 => simp at hw
+  case h_3 => simp at hw
+  rename_i vlo sl hlo
+  obtain ⟨el1, el2, hml⟩ := busRead_peek _ _ _ _ hlo
+  subst el1
+  simp only [Res.ok.injEq] at hw
+  obtain ⟨hw1, hw2⟩ := hw
+  subst hw1; subst hw2
+  simp only [Res.ok.injEq] at hb
+  obtain ⟨hb1, hb2⟩ := hb
+  subst hb1; subst hb2
+  simp only [writeRn, movPccSz, movPcc, writeRnW_nib, bind_ok, pure_ok, changeCcr_ok, writeCcr_zero, iBase, Sz.dataKind,
+    Sz.dataCount] at h
+  movcost_subst
+  simp only [specRegCcr, Spec.exec, Spec.getReg, Spec.setReg, Spec.movFlags, Spec.eaOf, Spec.eaRegs, getR16_eq, setR16_eq,
+    getER_eq, loadBE_two, Spec.Sz.bytes]
+  rw [abs24_toNat hi lo hp.1.1.1.2] at eh2
+  rw [abs24_1_toNat hi lo hp.1.1.1.2 hml] at el2
+  rw [← eh2, ← el2]
+  generalize sl.regs = r; generalize sl.ccr = cc
+  congr 1
+  all_goals (
+    simp only [nib, rdW, wrW, getEr, setEr, shOf, Spec.nzClearV, Spec.setFlag, changeCcrV, Spec.z4, Spec.zx16, Spec.lo3]
+    bv_decide)
+
+/-- MOV.W Rs,@aa:24 -/
+theorem MOV_W_ST_AA24 (op hi lo : BitVec 16) (st s1 s2 st' : Cpu) (c : BitVec 8) (i : Spec.Instr)
+    (hp : Spec.Form.pat .MOV_W_ST_AA24 op hi lo 0 0 = true)
+    (hi' : Spec.instrOf .MOV_W_ST_AA24 op hi lo 0 0 = some i) (hf : fetch st = .ok hi s1) (hf2 : fetch s1 = .ok lo s2)
+    (h : movAbs24 .W op st = .ok c st')
+    (hsfr0 : Spec.isSfr ((hi.setWidth 32 <<< 16) ||| lo.setWidth 32).toNat = false)
+    (hsfr1 : Spec.isSfr (((hi.setWidth 32 <<< 16) ||| lo.setWidth 32) + 1).toNat = false) :
+    st' = { s2 with regs := (specRegCcrBus i s2).1, ccr := (specRegCcrBus i s2).2.1, bus := (specRegCcrBus i s2).2.2 } := by
+  rw [Spec.instrOf_MOV_W_ST_AA24] at hi'; simp only [Option.some.injEq] at hi'; subst hi'
+  rw [Spec.pat_MOV_W_ST_AA24] at hp; simp only [Bool.and_eq_true, beq_iff_eq] at hp
+  have htag : (op &&& 0xfff0 == 0x6b20) = false := by bv_decide
+  have hsz : (Sz.W == Sz.B) = false := by decide
+  simp only [movAbs24, bind_ok, C08D.fetch32_ok _ _ _ _ _ hf hf2, hsz, htag, Bool.false_eq_true, if_false, writeMem, writeAbs24W,
+    readRn, pure_ok, readRnW_nib] at h
+  split at h
+  case h_2 => simp at h
+  case h_3 => simp at h
+  rename_i u s3 hw
+  split at hw
+  case h_2 => simp at hw
+  case h_3 => simp at hw
+  rename_i u0 s0 hw0
+  have e0 := busWrite_poke _ _ _ _ hw0 hsfr0
+  subst e0
+  have hm1 := busWrite_mapped _ _ _ _ hw
+  have e1 := busWrite_poke _ _ _ _ hw hsfr1
+  subst e1
+  simp only [movPccSz, movPcc, bind_ok, pure_ok, changeCcr_ok, writeCcr_zero, iBase, Sz.dataKind, Sz.dataCount] at h
+  movcost_subst
+  simp only [specRegCcrBus, Spec.exec, Spec.getReg, Spec.setReg, Spec.movFlags, Spec.eaOf, Spec.eaRegs, getR16_eq, setR16_eq,
+    getER_eq, storeBE_two, Spec.Sz.bytes]
+  rw [← abs24_toNat hi lo hp.1.1.1.2, ← abs24_1_toNat hi lo hp.1.1.1.2 hm1]
+  generalize hA : ((hi.setWidth 32 <<< 16) ||| lo.setWidth 32).toNat = A
+  generalize hB : (((hi.setWidth 32 <<< 16) ||| lo.setWidth 32) + 1).toNat = B
+  generalize s2.regs = r; generalize s2.ccr = cc; generalize s2.bus = bus
+  have hd : nib op 4 = ((op.extractLsb' 0 4).setWidth 4).setWidth 8 := by simp only [nib]; bv_decide
+  rw [hd]
+  generalize rdW r _ = w
+  have e1 : BitVec.setWidth 8 (BitVec.setWidth 16 (BitVec.setWidth 32 w) >>> 8) = BitVec.setWidth 8 (BitVec.setWidth 32 w >>> 8) := by
+    bv_decide
+  have e2 : BitVec.setWidth 8 (BitVec.setWidth 16 (BitVec.setWidth 32 w)) = BitVec.setWidth 8 (BitVec.setWidth 32 w) := by
+    bv_decide
+  rw [e1, e2]
+  congr 1
+
 end H8.Props.C08W
